@@ -557,6 +557,9 @@ def section(ctx):
         if toks == ['.other']:
             ctx.notes[f'sizelit.piece.{fn}'] = text
         sites.append((fn, toks, text))
+    # (for the harness: the piece-size expressions as Python text over `rate_limit` / `self._concurrent`, wherever they are computed)
+    import json as _json
+    ctx.notes['sizelit.piece_exprs'] = _json.dumps({fn: text for fn, toks, text in sites if toks != ['.other']})
     emit('/-- `max(rate_limit // (self._concurrent * 16), 1)` as written at each call site, postfix -/')
     emit('def pieceSites : List (String × List PieceTok) := [' + ', '.join('("%s", [%s])' % (fn, ', '.join(t)) for fn, t, _ in sites) + ']')
     for fn, _t, text in sites:
